@@ -3,18 +3,21 @@ import os
 import random
 from ..comp import chp as CH
 from ..comp import chpprof as CP
+from ..comp import chpregrid as RG
 
 ID = 'C06'
 THEOREMS = CH.THEOREMS + CP.THEOREMS_C06_PROFILE
 PARTIAL = CH.PARTIAL
 MODELLED = CH.MODELLED
-COMPONENTS = ['CHP/Plant builder (on the real Contract base problem) vs CHPAsset.setup_optim_problem: exact rows over all include-flag combinations, incl. start/shutdown ramp profiles (with heat variants and _convert_ramp), CHPAsset_with_min_load_costs and costs_only', 'unit-commitment automaton (model) vs feasibility of pinned on/off patterns in the REAL asset problem (HiGHS)']
+COMPONENTS = ['CHP/Plant builder (on the real Contract base problem) vs CHPAsset.setup_optim_problem: exact rows over all include-flag combinations, incl. start/shutdown ramp profiles (with heat variants and _convert_ramp), CHPAsset_with_min_load_costs and costs_only', 'unit-commitment automaton (model) vs feasibility of pinned on/off patterns in the REAL asset problem (HiGHS)', 'the same two for the problem ONE asset object builds on each grid of a sequence of grids of different frequency / main time unit (harness/comp/chpregrid.py)']
 RULE = ('profile cases (start-only, shutdown-only, both, heat variants, ramp_freq finer / coarser / equal) and min-load cases (threshold and costs as scalar, key, dict, array, None, negative; own windows) in the build and portfolio streams with the oracles chp.profile (k-th step after a start / before a shutdown within the k-th profile bounds) and chp.min_load (below threshold while on => flag); streams: builder correspondence over all include-flag combinations (on/start variables, heat node, fuel node, ramp, initial state, parameter forms, windows, step != main unit); pattern oracle: all 2^T on/off patterns (T <= 7 quick, <= 10 thorough) pinned in the real problem vs the automaton; portfolio oracle recomputing capacity, ramps, heat share, fuel, starts from x; '
         "stream 'start-costs-vary' (every 10th case): plants / CHPs with start costs varying in time and zero in some steps of the window (interval dict covering part of the window or with zero values, price key, array), mostly nothing else calling for start variables, block prices that make cycling attractive; oracle chp.start_costs on every solved portfolio with start costs: in a step with an off->on transition (on variables, without them read from the dispatch) the plant's cash flow holds at least the start costs of that step beyond the costs of its other variables (lower bound only: charging without a transition is known finding F-06b); "
         "probe stream (40 quick / 240 thorough cases apart from the normal streams): plants / CHPs with a start ramp profile and a general ramp, inside their start ramp at the beginning of the horizon or off before; oracle chp.profile_ramp pins the dispatch that follows the (remaining) start profile and then stays constant in the real asset problem: admissible under the statement whatever the ramp (control: the same start one step later); "
+        "stream 'regrid' (160 quick / 960 thorough cases): ONE Plant / CHPAsset / CHPAsset_with_min_load_costs OBJECT taken through a sequence of 2-4 time grids that differ in frequency with the same main time unit (hourly then 15 min, 4-hourly then hourly, back again, ...), in the main time unit with the same frequency, in both, or only in the horizon, optionally going through setup_optim_problem(costs_only=True), Portfolio.create_cost_samples, Portfolio.setup_optim_problem, set_timegrid, to_json, a JSON round trip or a deep copy in between; every set-up of the sequence is judged ON ITS OWN GRID like a fresh case: exact rows of the shared object vs the model, oracle chp.pattern (all 2^T patterns pinned in the real rows of the shared object vs specification / automaton with the durations converted to steps of that grid), chp.first_ramp, chp.start_flag, and for an optimised stage the portfolio oracles; "
+        "oracle chp.commitment on every solved portfolio with on variables and without ramp profiles (all streams): the optimised on/off pattern satisfies the run-length specification with minimum runtime / downtime / initial state in steps of the grid of the case; "
         'non-trivial = case with on-variables or a solved portfolio; distinct by case hash')
-ASSUMPTIONS = ['pattern feasibility decided by HiGHS MILP on the real rows']
-EXPLANATION = 'rows-iff-spec and spec-iff-automaton theorems (unbounded in T) about the model of the generated rows; exact row correspondence; pattern and portfolio oracles on the real code'
+ASSUMPTIONS = ['pattern feasibility decided by HiGHS MILP on the real rows', "stream 'regrid': the asset's parameters are given in grid-independent forms (scalars, price keys, interval data reaching beyond every horizon); each stage is judged against the statement on the stage's own grid (durations in main time units of that grid, rounded up to steps)"]
+EXPLANATION = 'rows-iff-spec and spec-iff-automaton theorems (unbounded in T) about the model of the generated rows; exact row correspondence; pattern and portfolio oracles on the real code, also for one object set up on a sequence of grids of different frequency / main time unit (each set-up judged on its own grid)'
 
 
 # TODO switch (coordinator): the statement-level probe chp.profile_ramp reproduces two behaviours of the unchanged code that
@@ -39,6 +42,11 @@ def scenarios(seed, tier):
             c = CH.gen_case(r1, kind=kinds[i % 5], tmax=8 if tier == 'quick' else 10)
         c['_tier'] = tier
         yield 'chp%d' % i, c
+    rnd = random.Random(seed * 7919 + 6006)
+    for i in range(160 if tier == 'quick' else 960):
+        c = RG.gen_case(random.Random(rnd.getrandbits(48)), tmax=7 if tier == 'quick' else 9)
+        c['_tier'] = tier
+        yield 'regrid%d' % i, c
     if PROBE_PROFILE_RAMP:
         rnd = random.Random(seed * 7919 + 606)
         for i in range(40 if tier == 'quick' else 240):
@@ -49,7 +57,10 @@ def scenarios(seed, tier):
 
 def run_case(case, drv):
     tier = case.pop('_tier', 'quick')
-    r = CH.run_case(case, drv, pattern_tmax=7 if tier == 'quick' else 10)
+    if case.get('kind') == 'regrid':
+        r = RG.run_case(case, drv, pattern_tmax=7 if tier == 'quick' else 9)
+    else:
+        r = CH.run_case(case, drv, pattern_tmax=7 if tier == 'quick' else 10)
     if case.get('focus'):
         r['features'].append('focus:' + case['focus'])
     if (r.get('observed', {}).get('paid_transitions') or 0) > 0:
